@@ -245,6 +245,7 @@ def run_case(case):
         e0 = 0 if op.startswith("connect") else sess.sim.emitted
         ref = do()
         npk = sess.sim.emitted - e0
+        ref_cmds = [p_.cmd for (s_, p_) in sess.sim.dev_log if s_ == sess.sim.sessions and p_.index is not None and p_.index >= e0]
         ref_val = ref.value if ref.ok else None
         t_eff, r_eff, x_eff = effective(case, op)
         if not ref.ok:
@@ -258,8 +259,18 @@ def run_case(case):
         sess.dispose()
     for j in range(npk):
         for kind in STALLS:
-            if kind == "data-flood" and not (op in ("shell", "exec_out", "root") and case["X"] is not None and j >= 1):
-                continue      # endless data is a stall only for operations with a whole-command limit, once the stream is open
+            if kind == "data-flood":
+                # endless WRTEs on the operation's own stream are a stall where the operation waits for something else: the OKAY of
+                # one of its own WRTEs, or the CLSE that answers its own CLSE (sync operations); for shell-like commands, which
+                # wait for data, only when a whole-command limit (timeout_s) is given
+                awaited = ref_cmds[j] if j < len(ref_cmds) else None
+                shellish = op in ("shell", "exec_out", "root", "streaming_shell")
+                if j < 1 or op.startswith("connect") or op == "reboot":
+                    continue
+                if shellish and not (case["X"] is not None and op != "streaming_shell"):
+                    continue
+                if not shellish and awaited not in ("OKAY", "CLSE"):
+                    continue
             sess, do, _ = setup(impl, case)
             try:
                 e0 = 0 if op.startswith("connect") else sess.sim.emitted
